@@ -24,11 +24,11 @@ VARIABLES s, out
 NoOut == [e |-> "none"]
 NoCur == [r |-> 0, req |-> [fc |-> 0, style |-> "future"], tx |-> 0, deadline |-> 0]
 
-Init0(mode, framing, cap, maxTO, rmin, rmax) ==
+Init0(mode, framing, cap, maxTO, rmin, rmax, txid0) ==
   [mode |-> mode, framing |-> framing, cap |-> cap, maxTO |-> maxTO, rmin |-> rmin, rmax |-> rmax,
    pc |-> IF mode = "session" THEN "idle" ELSE "start",
    enabled |-> FALSE, queue |-> <<>>, sendq |-> <<>>, hnd |-> TRUE,
-   txid |-> 0, cur |-> NoCur, toCount |-> 0, now |-> 0,
+   txid |-> txid0, cur |-> NoCur, toCount |-> 0, now |-> 0,
    conn |-> IF mode = "session" THEN "open" ELSE "none",
    rbuf |-> <<>>, eof |-> FALSE, wfail |-> FALSE,
    endReason |-> "", ready |-> {}, wake |-> 0, retryCur |-> rmin, connRes |-> "none",
@@ -184,8 +184,14 @@ Start == GStart /\ s' = [s EXCEPT !.pc = "wait_en"] /\ out' = Listener("Disabled
 
 GBeginConnect == s.pc = "wait_en" /\ s.enabled
 BeginConnect == /\ GBeginConnect
-                /\ s' = [s EXCEPT !.pc = "connecting", !.connRes = "none", !.attempts = s.attempts + 1]
+                /\ s' = [s EXCEPT !.pc = "connect_call"]
                 /\ out' = Listener("Connecting", 0)
+
+(* the connection attempt itself (TcpStream::connect / the harness connector) starts here *)
+GAttempt == s.pc = "connect_call"
+Attempt == /\ GAttempt
+           /\ s' = [s EXCEPT !.pc = "connecting", !.connRes = "none", !.attempts = s.attempts + 1]
+           /\ out' = [e |-> "attempt"]
 
 (* while not connected every queued request fails at once with no-connection *)
 GFailNext == /\ \/ s.pc = "wait_en" /\ ~s.enabled
@@ -241,11 +247,11 @@ Stopping ==
   /\ out' = Listener("Shutdown", 0)
 
 TaskGuards == GAdmit \/ GObserve \/ GDequeue \/ GIdleClosed \/ GIdleFrame \/ GIdleIo \/ GAwaitFrame
-              \/ GAwaitIo \/ GTimeout \/ GFinishEnd \/ GStart \/ GBeginConnect \/ GFailNext
+              \/ GAwaitIo \/ GTimeout \/ GFinishEnd \/ GStart \/ GBeginConnect \/ GAttempt \/ GFailNext
               \/ GFailClosed \/ GConnected \/ GConnFailed \/ GWaitExpired \/ GPost \/ GStopping
 
 TaskStep == Admit \/ Observe \/ Dequeue \/ IdleClosed \/ IdleFrame \/ IdleIo \/ AwaitFrame \/ AwaitIo
-            \/ Timeout \/ FinishEnd \/ Start \/ BeginConnect \/ FailNext \/ FailClosed \/ Connected
+            \/ Timeout \/ FinishEnd \/ Start \/ BeginConnect \/ Attempt \/ FailNext \/ FailClosed \/ Connected
             \/ ConnFailed \/ WaitExpired \/ Post \/ Stopping
 
 (* nothing the task could do on its own: inputs and the passage of time happen only here *)
